@@ -600,6 +600,10 @@ class Fn:
             return []
         t = self.blocks[b]["term"]
         listed = {v for v, _ in t["targets"]}
+        if set(info["variants"].values()) == {"Continue", "Break"}:
+            # the switch tests `opt?` / `res?`: Continue is the Some / Ok case, Break the None / Err case
+            alias = {"Some": "Continue", "Ok": "Continue", "None": "Break", "Err": "Break"}
+            names = [alias.get(n, n) for n in names]
         out = []
         for (d, lab) in self.edges(b):
             v = lab[1]
@@ -951,6 +955,8 @@ _TRANSPARENT_RX = [(re.compile(rx), idx) for rx, idx in TRANSPARENT]
 # the result too (unwrap_or_else, get_or_insert_with).
 COMBINATORS = [
     (r"option::Option::<T>::(map|and_then)$", 0, 1, False),
+    (r"option::Option::<T>::(is_some_and|is_none_or)$", 0, 1, True),
+    (r"result::Result::<T, E>::(is_ok_and|is_err_and)$", 0, 1, True),
     (r"option::Option::<T>::(map_or|map_or_else)$", 0, 2, False),
     (r"option::Option::<T>::(unwrap_or_else|or_else|get_or_insert_with)$", 0, 1, True),
     (r"result::Result::<T, E>::(map|and_then)$", 0, 1, False),
@@ -1413,6 +1419,26 @@ def bool_cond_edges(fn, prov, origin_pred, want):
     return out
 
 
+SOME_COMBINATORS = re.compile(r"option::Option::<T>::(map|and_then|is_some_and|inspect|filter|map_or|map_or_else|take_if|zip_with)$")
+
+
+def some_guarded_closures(facts, fn, prov, ty_rx):
+    """Closures constructed in fn and handed to an Option combinator that runs them only for Some, on a receiver whose
+    type matches ty_rx: [(closure Fn, hand-over block)]. `opt.and_then(|x| effect(x))` is `if let Some(x) = opt { effect(x) }`."""
+    rx = re.compile(ty_rx)
+    out = []
+    for b in fn.calls_re(SOME_COMBINATORS.pattern, cleanup=False):
+        t = fn.term(b)
+        if not t["args"] or not rx.search(t["arg_tys"][0]):
+            continue
+        # map_or / map_or_else: the Some-closure is the last argument
+        for a in t["args"][1:][-1:]:
+            cd = prov._closure_def(fn, a)
+            if cd:
+                out.append((cd[0], b))
+    return out
+
+
 def equal_edges(fn, prov, operand_pred, equal=True):
     """Edges on which a comparison of values accepted by operand_pred(origin-without-the-comparison) is known to hold
     (`a == b` taken true, or `a != b` taken false) -- or, with equal=False, known not to hold."""
@@ -1705,9 +1731,21 @@ def result_switches(fn, call_block, ty_part=None, proj=None):
     """First switches on the discriminant of call_block's destination (optionally of a projection of it)."""
     t = fn.term(call_block)
     dest = t["dest"]["l"]
+    # the result may be moved once or twice and passed through `?` (Try::branch) before it is tested
+    derived = {dest}
+    for _ in range(4):
+        for blk in fn.blocks:
+            for st in blk["stmts"]:
+                if st["k"] == "assign" and not st["lhs"]["p"] and st["rv"]["k"] == "use" and st["rv"]["op"]["k"] in ("copy", "move") \
+                        and not st["rv"]["op"]["p"] and st["rv"]["op"]["l"] in derived:
+                    derived.add(st["lhs"]["l"])
+            bt = blk["term"]
+            if bt["k"] == "call" and "dest" in bt and not bt["dest"]["p"] and re.search(r"ops::try_trait::Try>?::branch$", bt["callee"]) \
+                    and bt["args"] and bt["args"][0]["k"] in ("copy", "move") and not bt["args"][0]["p"] and bt["args"][0]["l"] in derived:
+                derived.add(bt["dest"]["l"])
 
     def pred(info):
-        if info.get("kind") != "discr" or info["place"]["l"] != dest:
+        if info.get("kind") != "discr" or info["place"]["l"] not in derived:
             return False
         flds = [e for e in info["place"]["p"] if e != "*"]
         if proj is None:
